@@ -111,3 +111,17 @@ TABLE['C03'] = {
     'level_text': 'Deductive proof that Makefile.rule and NinjaFile.build never give a target text a second producing rule and record exactly the call\'s targets (for all target lists and all previous states), and that ninja command_build passes every given dependency (plus PHONY) to the single build statement it emits. Only these data-structure and emitter kernels of the property are carried; the per-builtin dependency lists and rebuild behaviour are not.',
     'level_note': 'Trusted: PyVC, z3. Partial claim: duplicate-output rejection and command_build only; everything listed under not_covered is unverified.',
 }
+
+TABLE['C05'] = {
+    'modules': ['contracts.naming'],
+    'level': 'proof',
+    'assumptions': [
+        're.sub on the family F3 "(^|/)X1..Xk(?=/|$)" with template "\\1LIT" (classes not matching "/") is the per-component transducer of pyvc/models.py f3_fold (cross-checked against CPython re)',
+        'BasePath.relpath / parent / append are abstracted in the within_directory contract (their algebra is C12); the bounded run uses the real ones',
+    ],
+    'trusted_base': ['PyVC (pyvc/*.py)', 'z3 5.1.0', 'the spec transducer PARMAP (".." components and only they become PAR)'],
+    'not_covered': ['CcCompiler.default_name/output_file, Link.convert_args (<name>.int/), relpath/relname/buildpath root checks (bounded run only for stripext)',
+                    'that every builtin places implicit outputs under Root.builddir'],
+    'level_text': 'Deductive proof that within_directory rewrites exactly the ".." components of the relative path to PAR (the regex the code uses denotes the specified transducer, for all strings) and hands the result to directory.append; that Makefile.rule / NinjaFile.build reject a second producing rule for any target text (shared with C03). Injectivity and containment of the whole naming pipeline, and stripext, are checked bounded on the real Path objects.',
+    'level_note': 'Trusted: PyVC, z3, F3 regex transducer model (cross-checked). Bounded only: relpath/append/stripext composition (posixpath library).',
+}
